@@ -5,7 +5,7 @@ import sys
 import time
 from collections import Counter
 
-sys.path.insert(0, "/repo")
+import engine  # noqa: E402,F401  (puts the repository on sys.path)
 
 _z3stats = {"queries": 0, "sat": 0, "unsat": 0, "unknown": 0, "solver_s": 0.0}
 _patched = [False]
